@@ -39,7 +39,7 @@ PROPS = {
     "C04": {"bounds": INSN_BOUNDS + "; every implemented PUSH/POP/CALL/RET form with RSP anywhere (slot inside, straddling, outside D) and four "
                       "short programs mixing stack instructions with [RSP]-relative loads/stores, compared with the reference run in sequence",
             "outside": INSN_OUTSIDE, "trusted": INSN_TRUSTED, "assumptions": []},
-    "C05": {"bounds": "instruction_operand()+mem_addr(), LEA r16/r32/r64 and MOV load/store probes with the Instruction's memory fields symbolic over: "
+    "C05": {"bounds": "instruction_operand()+mem_addr() and LEA r16/r32/r64 (the MOV load/store probes over all classes run out of memory at 12 GB and are skipped; the bytes touched are tied to the address for [base+disp8] by the C01 memory-shape harnesses) with the Instruction's memory fields symbolic over: "
                       "base in {none, 16 GPR64, RIP} or under 0x67 {none, 16 GPR32, EIP}; index in {none, 15 GPRs}; scale 1/2/4/8; displacement "
                       "0 / sext8 / sext32 / 64-bit absolute; segment prefix in {none, ES, CS, SS, DS, FS, GS}; all register values, fs, gs symbolic",
             "outside": "that these classes are exactly what iced delivers is bridged natively on witness encodings, not proved; 16-bit addressing does not exist in 64-bit mode",
@@ -60,8 +60,8 @@ PROPS = {
             "trusted": INSN_TRUSTED, "assumptions": ["pipe descriptor numbers are excluded by the property"]},
     "C18": {"bounds": "content: every implemented JMP/Jcc/JRCXZ/JECXZ/CALL/RET form (the generated control-transfer harnesses) from a pre-state whose trace ends "
                       "in an arbitrary entry (any variant, source, target, count; level within +-1000) and whose call stack has 0 or 1 arbitrary entries, compared "
-                      "with an independent tracer (add_trace depends only on the last entry, so longer traces follow by induction); rendering: trace() and "
-                      "call_stack() on one arbitrary entry with any i16 level and 0..=1 call-stack entries, decoder and formatter stubbed, arguments evaluated",
+                      "with an independent tracer (add_trace depends only on the last entry, so longer traces follow by induction); rendering totality is NOT decided (c18_render runs out of memory; "
+                      "it found the negative-level abort before the repair, see known_findings.json)",
             "outside": "the rendered text; to_string(); nesting deeper than +-1000 (the i16 level counter overflows at 32767 nested calls); call stacks longer than 1 entry",
             "trusted": INSN_TRUSTED, "assumptions": []},
     "C11": {"bounds": "one real step() from arbitrary loop-control state (RIP, code_end_addr, finished, executed count, Option<limit>, stack_top all symbolic) with the "
@@ -112,6 +112,14 @@ PROPS = {
     },
 }
 
+
+# harnesses that exist in the sources but are not run, with the measured reason
+SKIP_HARNESSES = {
+    "c05_mov_load": "solver out of memory at 12 GB (symbolic base x index x scale x segment together with a symbolic-offset memory access)",
+    "c05_mov_store": "same as c05_mov_load",
+    "c18_render": "solver out of memory at 12 GB / cbmc crash (str::repeat with a symbolic count); an earlier configuration of this harness "
+                  "found the capacity-overflow abort for negative nesting levels that commit bb81d1c repairs",
+}
 
 INSN_PROPS = {"C01", "C02", "C03", "C04", "C05", "C06", "C08", "C09", "C18", "C19", "C20"}
 
